@@ -12,9 +12,13 @@ func getTypeFromSchema(schema *spec.Schema) (typeName string, isArray bool) {
 	if len(refStr) > 0 {
 		return refStr, false
 	}
-	typeName = schema.Type[0]
+	if len(schema.Type) > 0 {
+		typeName = schema.Type[0]
+	}
 	if typeName == ArrayType {
-		typeName, _ = getSchemaType(&schema.Items.Schema.SchemaProps)
+		if schema.Items != nil && schema.Items.Schema != nil {
+			typeName, _ = getSchemaType(&schema.Items.Schema.SchemaProps)
+		}
 		return typeName, true
 	}
 	return typeName, false
@@ -47,7 +51,9 @@ func getTypeFromSchemaProps(schema *spec.SchemaProps) (typeName string, isArray 
 			typeName = fmt.Sprintf("%s.%s", typeName, format)
 		}
 		if typeName == ArrayType {
-			typeName, _ = getSchemaType(&schema.Items.Schema.SchemaProps)
+			if schema.Items != nil && schema.Items.Schema != nil {
+				typeName, _ = getSchemaType(&schema.Items.Schema.SchemaProps)
+			}
 			return typeName, true
 		}
 	}
